@@ -389,6 +389,8 @@ def k_transform(run, case, rng, work):
     form = case["form"]
     R = gen.rand_rot(rng)
     t = rng.normal(size=3) * 10.0**rng.uniform(-2, 4)
+    if rng.random() < .15:
+        t = np.zeros(3)  # a pure rotation (/ scaling) about the origin
     u = rng.random()
     s = 1.0 if u < .3 else 10.0**(rng.uniform(-2, 2) if u < .65 else rng.uniform(-6, 6))
     M = np.eye(4)
@@ -492,11 +494,16 @@ def main(run):
         KINDS["read"](run, run.case("read", i))
     for i in run.mine({"quick": 200, "thorough": 5000}[run.tier]):
         KINDS["write"](run, run.case("write", i))
-    for i in run.mine({"quick": 48, "thorough": 900}[run.tier]):
-        if i % 4 == 3:
+    for i in run.mine({"quick": 64, "thorough": 1200}[run.tier]):
+        if i % 8 == 7:
             k_cli(run, run.case("cli", i, tool="ape", fmt="euroc"))
         else:
-            k_cli(run, run.case("cli", i, fmt=["tum", "kitti", "euroc"][i % 3], force={"use_ref": i % 2 == 0}))
+            # (for pose files without stamps nothing pairs the poses up unless an alignment is asked for)
+            fmt = ["tum", "kitti", "euroc", "kitti"][i % 4]
+            force = {"use_ref": (i // 4) % 3 != 2}
+            if fmt == "kitti":
+                force.update({"align": False, "correct_scale": False})
+            k_cli(run, run.case("cli", i, fmt=fmt, force=force, unequal=True))
     for i in run.mine({"quick": 120, "thorough": 3000}[run.tier]):
         KINDS["write_archive"](run, run.case("write_archive", i))
     # malformed: defect x format x every row/column position of small files
